@@ -42,9 +42,14 @@ Proof.
   destruct (keeps_scof cap lower t) as [(K1 & _) _]. rewrite (scof_wrote cap lower). split; congruence.
 Qed.
 
-Theorem wapp_wire status hs ws kind chunks hc :
+(* the iterable is iterated: by its kind / a write() before it, or because the accepted
+   status has no body (then not even a seekable file wrapper is handed over: fix d117733).
+   Also: the task closes the iterable (if it has close()), nothing is handed over. *)
+Theorem wapp_wire_gen status hs ws kind chunks hc :
   r_error r = None ->
-  no_handover kind ws ->
+  (no_handover kind ws \/
+   forall t1, start_response lower (new_task (r_version r) false) (PStr status) hs None = (t1, Ok tt) ->
+              has_body t1 = false) ->
   (forall t1, start_response lower (new_task (r_version r) false) (PStr status) hs None = (t1, Ok tt) ->
               len1 kind && match t_clen t1 with None => true | Some _ => false end = false) ->
   let res := channel_service cap lower c r (wapp status hs ws kind chunks hc) None in
@@ -60,7 +65,8 @@ Theorem wapp_wire status hs ws kind chunks hc :
          /\ wire (o_writes res) = head ++ snd (ws_sem (set_wrote true tp) ds)
                                   ++ (if t_chunked tp && negb (r_head r) then chunk_terminator else [])
          /\ o_close res = t_cof tp || toofew r (fst (ws_sem (set_wrote true tp) ds))
-         /\ o_next res = negb (t_cof tp || toofew r (fst (ws_sem (set_wrote true tp) ds)))).
+         /\ o_next res = negb (t_cof tp || toofew r (fst (ws_sem (set_wrote true tp) ds))))
+    /\ o_handover res = false /\ o_closes res = (if hc then 1 else 0)%nat.
 Proof.
   intros He Hnh Hl1. cbn zeta. unfold channel_service. rewrite He. cbn [connected].
   set (t0 := new_task (r_version r) false).
@@ -70,7 +76,7 @@ Proof.
   unfold task_service.
   destruct (x_out (task_run cap lower c r None (t0, mkChan [] 0) (inl (wapp status hs ws kind chunks hc)))) as [[]|e] eqn:Eraw;
     [|intro X; discriminate X].
-  intros _. unfold ladder. rewrite Eraw. cbn [o_writes o_close o_next o_escaped fst snd].
+  intros _. unfold ladder. rewrite Eraw. cbn [o_writes o_close o_next o_escaped o_handover o_closes fst snd].
   revert Eraw. unfold task_run, wsgi_execute.
   change (a_call (wapp status hs ws kind chunks hc)) with (AStart (PStr status) hs None :: map AWrite ws).
   rewrite run_actions_cons. cbn [run_action fst snd].
@@ -88,7 +94,9 @@ Proof.
     destruct (ws_sem_same (w :: ws') (set_wrote true tp)) as (_ & _ & _ & A4 & _). rewrite A4. reflexivity. }
   assert (Hcl : t_clen t1w = t_clen t1) by (apply (tw_seq_clen cap lower c r _ _ _ _ Ews)).
   rewrite (execute_body_iterated cap lower c r kind chunks t1w ch1w (wapp status hs ws kind chunks hc) eq_refl eq_refl).
-  2: { destruct Hnh as [H|[H|H]]; auto. }
+  2: { destruct Hnh as [[H|[H|H]]|H]; auto.
+       destruct ws as [|w ws']; [|right; right; left; apply Hwh; discriminate].
+       cbn [tw_seq] in Ews. injection Ews as <- _. right. right. right. apply H. exact Esr. }
   2: { rewrite Hcl. exact Hl1. }
   destruct (tw_seq cap lower c r (t1w, ch1w) (eff kind chunks)) as [[t2 ch2] [[]|e]] eqn:Eit.
   2: { change (a_has_close (wapp status hs ws kind chunks hc)) with hc. destruct (true && hc); cbn; intro X; discriminate X. }
@@ -100,12 +108,18 @@ Proof.
   assert (Hafter : x_out (if true && hc then mkExec (tf, ch2) (Ok tt) 1 false true
                           else mkExec (tf, ch2) (Ok tt) 0 (negb true) true) = Ok tt
      /\ x_st (if true && hc then mkExec (tf, ch2) (Ok tt) 1 false true
-              else mkExec (tf, ch2) (Ok tt) 0 (negb true) true) = (tf, ch2))
-    by (destruct (true && hc); auto).
-  destruct Hafter as [Ho Hst2]. rewrite Ho, Hst2. clear Ho Hst2.
-  destruct (task_finish cap lower c r None (tf, ch2)) as [s3 [[]|e3]] eqn:Efin; cbn [x_out x_st];
+              else mkExec (tf, ch2) (Ok tt) 0 (negb true) true) = (tf, ch2)
+     /\ x_handover (if true && hc then mkExec (tf, ch2) (Ok tt) 1 false true
+              else mkExec (tf, ch2) (Ok tt) 0 (negb true) true) = false
+     /\ x_closes (if true && hc then mkExec (tf, ch2) (Ok tt) 1 false true
+              else mkExec (tf, ch2) (Ok tt) 0 (negb true) true) = (if hc then 1 else 0)%nat)
+    by (destruct hc; auto).
+  destruct Hafter as (Ho & Hst2 & Hho & Hcs). rewrite Ho, Hst2, Hho, Hcs. clear Ho Hst2 Hho Hcs.
+  destruct (task_finish cap lower c r None (tf, ch2)) as [s3 [[]|e3]] eqn:Efin; cbn [x_out x_st x_handover x_closes];
     [|intro X; discriminate X].
   intros _. exists t1. split; [reflexivity|]. cbn zeta.
+  match goal with |- ?A /\ ?B /\ ?R =>
+    refine ((fun (pq : A /\ B) (r0 : R) => conj (proj1 pq) (conj (proj2 pq) r0)) _ _); [|split; reflexivity] end.
   destruct (ws ++ eff kind chunks) as [|d ds] eqn:Eds.
   - (* no Task.write at all: finish() sends the head *)
     cbn [tw_seq] in Eall. inversion Eall; subst t2 ch2. clear Eall.
@@ -126,6 +140,31 @@ Proof.
     split; [intro X; discriminate X|]. intros _.
     exists tp, head. split; [exact Eb|]. fold (chan_wire ch3). rewrite W3, W2, T1, T2, A2, A3, <- Ef.
     cbn [chan_wire ch_writes rev wire flat_map List.app]. rewrite <- !app_assoc. auto.
+Qed.
+
+Theorem wapp_wire status hs ws kind chunks hc :
+  r_error r = None ->
+  no_handover kind ws ->
+  (forall t1, start_response lower (new_task (r_version r) false) (PStr status) hs None = (t1, Ok tt) ->
+              len1 kind && match t_clen t1 with None => true | Some _ => false end = false) ->
+  let res := channel_service cap lower c r (wapp status hs ws kind chunks hc) None in
+  o_raw res = None ->
+  exists t1, start_response lower (new_task (r_version r) false) (PStr status) hs None = (t1, Ok tt) /\
+    let ds := ws ++ eff kind chunks in
+    (ds = [] ->
+       exists tp head, build_response_header cap lower c r (toofew_adj cap lower r t1) = (tp, Ok head)
+         /\ wire (o_writes res) = head ++ (if t_chunked tp && negb (r_head r) then chunk_terminator else [])
+         /\ o_close res = t_cof tp /\ o_next res = negb (t_cof tp))
+    /\ (ds <> [] ->
+       exists tp head, build_response_header cap lower c r t1 = (tp, Ok head)
+         /\ wire (o_writes res) = head ++ snd (ws_sem (set_wrote true tp) ds)
+                                  ++ (if t_chunked tp && negb (r_head r) then chunk_terminator else [])
+         /\ o_close res = t_cof tp || toofew r (fst (ws_sem (set_wrote true tp) ds))
+         /\ o_next res = negb (t_cof tp || toofew r (fst (ws_sem (set_wrote true tp) ds)))).
+Proof.
+  intros He Hnh Hl1. cbn zeta. intro Hraw.
+  destruct (wapp_wire_gen status hs ws kind chunks hc He (or_introl Hnh) Hl1 Hraw) as (t1 & Esr & H0 & H1 & _).
+  exists t1. auto.
 Qed.
 
 End Run2.
